@@ -12,6 +12,7 @@ CONSTANTS
   MaxTime = 8
   MaxPosts = 2
   MaxSils = 1
+  MaxReloads = 0
   RetryGap = 1
   MinTimeout = 3
   RetrySlack = 1
